@@ -27,7 +27,6 @@ import (
 var (
 	tombStoneBytes = []byte("tombstone")
 	noPrefixEnd    = []byte{0}
-	events         = []byte("/events/")
 )
 
 // retry config
@@ -46,6 +45,7 @@ func (c *Config) getScannerConfig() scanner.Config {
 	// todo: expose TTL as args
 	return scanner.Config{
 		CompactKey: getCompactKey(c.Prefix),
+		TTLPrefix:  getEventsPrefix(c.Prefix),
 		Tombstone:  tombStoneBytes,
 		TTL:        time.Second * time.Duration(eventsTTL),
 	}
@@ -55,6 +55,11 @@ func (c *Config) complete() {
 	if c.WatchCacheSize <= 0 {
 		c.WatchCacheSize = historyCapacity
 	}
+}
+
+// getEventsPrefix returns the directory of the Kubernetes Event objects, the only keys written with ttl
+func getEventsPrefix(prefix string) []byte {
+	return []byte(fmt.Sprintf("%s/events/", prefix))
 }
 
 func getCompactKey(prefix string) []byte {
